@@ -386,6 +386,9 @@ def transpose(ex, state, a, axes, line):
         res.flags = dict(a.flags)
     if nd == 4 and axes == [3, 1, 2, 0]:
         res.flags['lorth'], res.flags['rorth'] = z3.BoolVal(False), z3.BoolVal(False)
+    if nd == 2 and axes == [1, 0]:
+        # the transpose of a matrix with orthonormal columns has orthonormal rows and vice versa (also for complex entries)
+        res.flags['isorows'], res.flags['isocols'] = a.flags['isocols'], a.flags['isorows']
     ro = roles_of(a)
     if ro is not None:
         set_roles(res, [ro[k] for k in axes])
